@@ -47,6 +47,11 @@ PROGS = {
                           ["abs", [0.2, "min"], 5, "a12"]],
                  "handlers": {"a1": [["rel", [500.0, "ms"], 5, "b1"]], "a6": [["rel", [2.0, "s"], 5, "b8"]]}, "mid": [4.5, "s"]},
 }
+# the same three programs with a warm-up period of zero (warm-up time = start time): the warm-up notification is due all the same
+import copy as _copy
+for _k in ("float", "int", "duration"):
+    PROGS[_k + "0"] = _copy.deepcopy(PROGS[_k])
+    PROGS[_k + "0"]["rep"]["warmup"] = {"float": 0.0, "int": 0, "duration": [0.0, "s"]}[_k]
 CMDS = ["initialize", "start", "step", "stop", "run_up_to", "run_up_to_including", "end_replication", "cleanup"]
 
 
@@ -120,7 +125,7 @@ def gen_case(rng, tier, i):
             # an initialize that the model aborts (its construct_model raises): the simulator is not initialised afterwards,
             # and a cleanup() after it ends the run thread like any other cleanup
             seq.insert(rng.randint(0, len(seq)), "initialize:fail")
-        return {"fam": "seq", "clock": clock, "seq": seq, "oneshot": rng.random() < 0.5}
+        return {"fam": "seq", "clock": clock, "seq": seq, "oneshot": rng.random() < 0.5, "progkey": clock + ("0" if (i // 3) % 4 == 1 else "")}
     i -= nrand
     if i < ngate:
         ps = _prefixes(tier)
@@ -187,9 +192,9 @@ def _run_seq(case, ctx):
     from vlib.simharness import Harness, compare_traces, check_clock_monotone
     from vlib.protocol import ProtoRef, StreamAutomaton
     from vlib.refdevs import tnum
-    prog = PROGS[case["clock"]]
+    prog = PROGS[case.get("progkey", case["clock"])]
     mid = prog["mid"]
-    where = {"clock": case["clock"], "sequence": case["seq"]}
+    where = {"clock": case["clock"], "sequence": case["seq"], "warmup_period": prog["rep"]["warmup"]}
     pref = ProtoRef(prog, mid)
     h = Harness(prog)
     h.oneshot = bool(case.get("oneshot"))
